@@ -26,6 +26,8 @@ structure RelOK (env : Env) (R : St → St → Prop) : Prop where
   leak : ∀ s n s' g, g = Ghost.scopeLeak ∨ g = Ghost.main0Leak →
     R (s.enter n) s' → R s (s'.ev (.ghost g))
   empty : ∀ s s', R ((s.enter 0).ev (.ghost .emptyScopeName)) s' → R s s'
+  /-- `SYMBOL_TABLES.rollback(snapshot)` at the end of a run that started in `s` -/
+  rollback : ∀ s s', R s s' → R s (St.rollback s s')
   /-- the enter/exit pair may also be seen as two plain steps when nothing in between matters -/
   enter_exit_ok : True
 
@@ -520,7 +522,14 @@ theorem eval_rel (fuel : Nat) : GRel R (eval env fuel) := by
     · exact finish_rel h ih _ _ _ _ _ (manyLoop_rel h hf _ _ _ _)
     · exact finish_rel h ih _ _ _ _ _ (seqNR_rel h hf _ id _ _ _)
     · exact finish_rel h ih _ _ _ _ _ (main0Match_rel h hf _ _ _ _)
-    · exact finish_rel h ih _ _ _ _ _ (programMatch_rel h hf _ _ _ _)
+    · rename_i unit main0 subs _
+      have h1 := finish_rel h ih c subs _ [c] s (programMatch_rel h hf fuel unit main0 s)
+      unfold programExit
+      split
+      · split
+        · exact h.rollback _ _ h1
+        · exact h1
+      · exact h1
     · exact h.comment _
     · exact h.directive _
     · exact cppNew_rel h _ _
